@@ -90,6 +90,8 @@ func main() {
 		h.GenC12(rng, thorough, emit)
 	case "tls":
 		h.GenTLS(rng, thorough, emit)
+	case "c01":
+		h.GenC01(rng, thorough, emit)
 	case "c02":
 		h.GenC02(rng, thorough, emit)
 	case "c03":
